@@ -413,6 +413,23 @@ impl Context {
                         if parent.state().is_completed() {
                             return Ok(());
                         }
+                        // the error goes on to the parent: what is still open beside the
+                        // failed task is closed with it, level by level, so that nothing stays
+                        // open under a parent whose catch completes it later
+                        let mut open = task.siblings();
+                        while !open.is_empty() {
+                            let mut nexts = Vec::new();
+                            for t in &open {
+                                // a task that was closed before may still have open tasks beneath it
+                                nexts.extend_from_slice(&t.children());
+                                if t.state().is_completed() {
+                                    continue;
+                                }
+                                t.set_state(TaskState::Skipped);
+                                self.emit_task(t)?;
+                            }
+                            open = nexts;
+                        }
                         parent.set_err(&err);
                         return parent.error(self);
                     }
